@@ -280,6 +280,25 @@ func (g *Gen) star(lat, lon, radius float64, n int, jag float64, scale float64) 
 		}
 		pts = append(pts, [2]float64{la, lo})
 	}
+	if len(pts) > 1 && pts[len(pts)-1] == pts[0] {
+		pts = pts[:len(pts)-1]
+	}
+	if len(pts) < 3 {
+		// clamping at a pole / the antimeridian collapsed the ring: a small triangle
+		// that stays inside the legal range
+		d := math.Max(radius*scale, 1e-9)
+		sy, sx := 1.0, 1.0
+		if lat > 0 {
+			sy = -1
+		}
+		if lon > 0 {
+			sx = -1
+		}
+		pts = [][2]float64{{lat, lon}, {lat + sy*d, lon}, {lat, lon + sx*d}}
+		if pts[1][0] == lat || pts[2][1] == lon { // d below the resolution of the coordinates
+			pts[1][0], pts[2][1] = lat+sy*1e-3, lon+sx*1e-3
+		}
+	}
 	pts = append(pts, pts[0])
 	return pts
 }
